@@ -17,6 +17,7 @@ import (
 	"go/constant"
 	"go/token"
 	"go/types"
+	"sort"
 
 	"golang.org/x/tools/go/ssa"
 )
@@ -62,27 +63,60 @@ func (a c20Set) all(f func(c20State) bool) bool {
 	return true
 }
 
+// Bits 20.. of a state are per-frame tags, 11 per inlining level:
+//
+//	0..5   three 2-bit classes: which constant a followed callee returned (flag / small enum / bool)
+//	6      the boolean result slot of this frame (functions with defer / named results)
+//	7,8    two boolean phis (flag temporaries)
+//	9,10   iteration counter of the loop over a literal table being unrolled
 const (
-	c20TagBase     = 24 // bits 24..: per-frame tags (3 boolean call results, the boolean result slot, 2 boolean phis)
-	c20TagsPerLvl  = 6
+	c20TagBase     = 20
+	c20TagsPerLvl  = 11
 	c20CallTags    = 3
-	c20SlotTag     = 3
+	c20SlotTag     = 6
+	c20PhiTag0     = 7
 	c20PhiTags     = 2
-	c20MaxDepth    = 4
+	c20CntShift    = 9
+	c20MaxDepth    = 3
 	c20ClientMask  = c20State(1)<<c20TagBase - 1
 	c20TagMask     = ^c20ClientMask
-	c20MaxBlockRun = 4000
+	c20MaxBlockRun = 6000
 )
+
+// c20CallTag: where the class of a call's flag result is kept and which
+// constants the classes 1,2,3 stand for (class 0 = not a known constant).
+type c20CallTag struct {
+	shift  uint
+	consts []string
+	idx    int // index of the flag result in the callee's results
+}
+
+func (t c20CallTag) class(s c20State) int { return int(s>>t.shift) & 3 }
+func (t c20CallTag) with(s c20State, c int) c20State {
+	return s&^(3<<t.shift) | c20State(c)<<t.shift
+}
+func (t c20CallTag) classOf(key string) int {
+	for i, k := range t.consts {
+		if k == key {
+			return i + 1
+		}
+	}
+	return -1
+}
 
 type c20Frame struct {
 	fn   *ssa.Function
 	call ssa.CallInstruction // nil for the root
+	args []ssa.Value         // the values the parameters of fn are bound to (receiver first), nil if unknown
 }
 
 // c20Ctx is the inlining context a hook is called in.
 type c20Ctx struct {
 	Stack     []c20Frame
 	Replaying bool // a deferred call is being executed
+	// Callee, when set, is the function value the call instruction being shown to a hook really
+	// invokes (the current element of a table of functions being unrolled).
+	Callee ssa.Value
 }
 
 func (x *c20Ctx) Fn() *ssa.Function { return x.Stack[len(x.Stack)-1].fn }
@@ -109,13 +143,7 @@ func (x *c20Ctx) Resolve(v ssa.Value) (ssa.Value, int) {
 				idx = i
 			}
 		}
-		args := fr.call.Common().Args
-		if c20OnceDoArg(fr.call) == origin(fr.fn) && staticCallee(fr.call) != origin(fr.fn) {
-			break // entered through sync.Once.Do: no parameter mapping
-		}
-		if staticCallee(fr.call) != origin(fr.fn) && len(args) != len(fr.fn.Params) {
-			break
-		}
+		args := fr.args
 		if idx < 0 || idx >= len(args) {
 			break
 		}
@@ -160,19 +188,24 @@ type c20PathFlow struct {
 
 // c20FrameInfo is the per-frame bookkeeping.
 type c20FrameInfo struct {
-	tags    map[*ssa.Call]c20State
+	tags    map[*ssa.Call]c20CallTag
 	defers  []*ssa.Defer
 	phiTags map[*ssa.Phi]c20State
+	unroll  *c20Unroll
 	slot    *ssa.Alloc // memory cell the boolean result is spilled to (functions with defer / named results)
 	slotTag c20State
 }
 
 type c20Res struct {
-	all, tr, fa c20Set
-	boolIdx     int
-	returns     int
+	all     c20Set
+	by      map[string]c20Set // states per constant value of the flag result ("true", "false", "0", "1", ...)
+	other   c20Set            // states in which the flag result is not a known constant
+	boolIdx int               // index of the flag result (first bool, else first small-integer enum), -1 if none
+	returns int
 }
 
+// c20FirstBoolResult: the result a caller may branch on: the first boolean
+// result, else the first result of a named integer type (a small enum).
 func c20FirstBoolResult(fn *ssa.Function) int {
 	rs := fn.Signature.Results()
 	for i := 0; i < rs.Len(); i++ {
@@ -180,7 +213,27 @@ func c20FirstBoolResult(fn *ssa.Function) int {
 			return i
 		}
 	}
+	for i := 0; i < rs.Len(); i++ {
+		if _, named := rs.At(i).Type().(*types.Named); !named {
+			continue
+		}
+		if b, ok := rs.At(i).Type().Underlying().(*types.Basic); ok && b.Info()&types.IsInteger != 0 {
+			return i
+		}
+	}
 	return -1
+}
+
+func c20IsBool(t types.Type) bool {
+	b, ok := t.Underlying().(*types.Basic)
+	return ok && b.Kind() == types.Bool
+}
+
+func c20ConstKey(c *ssa.Const) (string, bool) {
+	if c.Value == nil {
+		return "", false
+	}
+	return c.Value.ExactString(), true
 }
 
 // Run analyses root entered with the given states.
@@ -203,33 +256,57 @@ func (f *c20PathFlow) target(c ssa.CallInstruction) *ssa.Function {
 	return staticCallee(c)
 }
 
-// targetIn additionally resolves a call of a function value (a parameter, a
-// local or captured variable) to the one package function or function literal
-// that value can be, seen from the inlining context.
-func (f *c20PathFlow) targetIn(x *c20Ctx, c ssa.CallInstruction) *ssa.Function {
-	if t := f.target(c); t != nil {
-		return t
-	}
+// c20Target is one function a call may enter, with the values its parameters
+// are bound to.
+type c20Target struct {
+	fn   *ssa.Function
+	args []ssa.Value
+}
+
+// targetsIn resolves a call, seen from the inlining context, to the package
+// function(s) it enters: a static callee; the function literal handed to
+// sync.Once.Do; a function value (closure parameter, local or captured
+// variable, method value, func-typed struct field, element of a literal table
+// of functions); a method of an unexported interface of the package that has a
+// single implementation. More than one target = the call runs one of them.
+func (f *c20PathFlow) targetsIn(x *c20Ctx, c ssa.CallInstruction) []c20Target {
+	return f.resolveTargets(x, c, false)
+}
+
+func (f *c20PathFlow) resolveTargets(x *c20Ctx, c ssa.CallInstruction, quiet bool) []c20Target {
 	cc := c.Common()
-	if cc.IsInvoke() || builtinName(c) != "" {
+	if fn := c20OnceDoArg(c); fn != nil {
+		return []c20Target{{fn: fn}}
+	}
+	if cc.IsInvoke() {
+		if m := f.K.soleImplementation(cc); m != nil {
+			return []c20Target{{fn: m, args: append([]ssa.Value{cc.Value}, cc.Args...)}}
+		}
 		return nil
+	}
+	if builtinName(c) != "" {
+		return nil
+	}
+	if t := staticCallee(c); t != nil && !c20IsBoundWrapper(t) {
+		return []c20Target{{fn: t, args: cc.Args}}
 	}
 	v, _ := x.Resolve(cc.Value)
-	src, open := f.K.origins(v)
-	if open || len(src) != 1 {
-		f.noteDynamic(x, cc)
+	fvs, ok := f.K.funcValues(v, 0)
+	if !ok || len(fvs) == 0 {
+		if !quiet && !f.K.libraryFuncValue(v) {
+			f.noteDynamic(x, cc)
+		}
 		return nil
 	}
-	switch fv := src[0].(type) {
-	case *ssa.Function:
-		return origin(fv)
-	case *ssa.MakeClosure:
-		if fn, ok := fv.Fn.(*ssa.Function); ok {
-			return origin(fn)
+	var out []c20Target
+	for _, fv := range fvs {
+		args := cc.Args
+		if fv.recv != nil {
+			args = append([]ssa.Value{fv.recv}, cc.Args...)
 		}
+		out = append(out, c20Target{fn: fv.fn, args: args})
 	}
-	f.noteDynamic(x, cc)
-	return nil
+	return out
 }
 
 // noteDynamic: an unresolved call of a function value of an unnamed func type
@@ -259,23 +336,153 @@ func (f *c20PathFlow) canFollow(x *c20Ctx, cal *ssa.Function) bool {
 	return true
 }
 
-func (f *c20PathFlow) tagsOf(fn *ssa.Function, depth int) map[*ssa.Call]c20State {
-	tags := map[*ssa.Call]c20State{}
+// c20Unroll: a counted loop `for I := 0..len(S)-1 { … S[I] … }` over a slice
+// S that is, in this inlining context, a fully known literal of at most three
+// elements (a table of steps / function values / channels). The flow counts
+// the completed iterations in the state, so each iteration sees exactly its
+// element and the loop runs exactly len(S) times.
+type c20Unroll struct {
+	header *ssa.BasicBlock
+	loop   map[*ssa.BasicBlock]bool
+	index  ssa.Value
+	slice  ssa.Value // origin of S
+	elems  []ssa.Value
+	shift  uint
+}
+
+func (u *c20Unroll) count(s c20State) int { return int(s>>u.shift) & 3 }
+func (u *c20Unroll) withCount(s c20State, c int) c20State {
+	if c > 3 {
+		c = 3
+	}
+	return s&^(3<<u.shift) | c20State(c)<<u.shift
+}
+
+// elemIndex: v is S[I] (the current element) of the unrolled loop.
+func (u *c20Unroll) isElem(k *c20Pkg, x *c20Ctx, v ssa.Value) bool {
+	src, open := k.origins(v)
+	if open || len(src) != 1 {
+		return false
+	}
+	ld, ok := src[0].(*ssa.UnOp)
+	if !ok || ld.Op != token.MUL {
+		return false
+	}
+	ia, ok := ld.X.(*ssa.IndexAddr)
+	if !ok || ia.Index != u.index {
+		return false
+	}
+	rv, _ := x.Resolve(ia.X)
+	s2, o2 := k.origins(rv)
+	return !o2 && len(s2) == 1 && s2[0] == u.slice
+}
+
+func (f *c20PathFlow) findUnroll(x *c20Ctx, fn *ssa.Function, depth int) *c20Unroll {
+	var found *c20Unroll
+	allInstrs(fn, func(in ssa.Instruction) {
+		if found != nil {
+			return
+		}
+		ia, ok := in.(*ssa.IndexAddr)
+		if !ok || !c20IndexFromZero(ia.Index) {
+			return
+		}
+		if _, isSlice := ia.X.Type().Underlying().(*types.Slice); !isSlice {
+			return
+		}
+		rv, _ := x.Resolve(ia.X)
+		src, open := f.K.origins(rv)
+		if open || len(src) != 1 {
+			return
+		}
+		elems := c20LiteralElems(f.K, rv)
+		if len(elems) == 0 || len(elems) > 3 {
+			return
+		}
+		allInstrs(fn, func(j ssa.Instruction) {
+			ifi, ok := j.(*ssa.If)
+			if !ok || found != nil {
+				return
+			}
+			cmp, ok := decodeCond(ifi.Cond, true)
+			if !ok || cmp.Op != token.LSS || cmp.X != ia.Index {
+				return
+			}
+			lc, ok := cmp.Y.(*ssa.Call)
+			if !ok || builtinName(lc) != "len" {
+				return
+			}
+			lv, _ := x.Resolve(lc.Call.Args[0])
+			s1, o1 := f.K.origins(lv)
+			if o1 || len(s1) != 1 || s1[0] != src[0] {
+				return
+			}
+			h := ifi.Block()
+			if !h.Dominates(ia.Block()) {
+				return
+			}
+			loop := map[*ssa.BasicBlock]bool{}
+			fromH := reachableFrom(h, nil)
+			for _, b := range fn.Blocks {
+				if fromH[b] && reachableFrom(b, nil)[h] {
+					loop[b] = true
+				}
+			}
+			if !loop[h.Succs[0]] || loop[h.Succs[1]] {
+				return // expected shape: true edge into the body, false edge out of the loop
+			}
+			found = &c20Unroll{header: h, loop: loop, index: ia.Index, slice: src[0], elems: elems,
+				shift: uint(c20TagBase + depth*c20TagsPerLvl + c20CntShift)}
+		})
+	})
+	return found
+}
+
+func (f *c20PathFlow) tagsOf(x *c20Ctx, fn *ssa.Function, depth int) map[*ssa.Call]c20CallTag {
+	tags := map[*ssa.Call]c20CallTag{}
 	n := 0
 	allInstrs(fn, func(in ssa.Instruction) {
 		c, ok := in.(*ssa.Call)
-		if !ok {
+		if !ok || builtinName(c) != "" {
 			return
 		}
-		cal := f.target(c)
-		if cal == nil || !f.K.In[cal] || staticCallee(c) == nil || c20FirstBoolResult(cal) < 0 {
+		ts := f.resolveTargets(x, c, true)
+		if len(ts) != 1 || c20OnceDoArg(c) != nil {
 			return
+		}
+		cal := ts[0].fn
+		if cal == nil || !f.K.In[cal] {
+			return
+		}
+		idx := c20FirstBoolResult(cal)
+		if idx < 0 {
+			return
+		}
+		var consts []string
+		if c20IsBool(cal.Signature.Results().At(idx).Type()) {
+			consts = []string{"false", "true"}
+		} else {
+			seen := map[string]bool{}
+			allInstrs(cal, func(j ssa.Instruction) {
+				if ret, ok := j.(*ssa.Return); ok && idx < len(ret.Results) {
+					if k, ok := ret.Results[idx].(*ssa.Const); ok {
+						if key, ok := c20ConstKey(k); ok && !seen[key] {
+							seen[key] = true
+							consts = append(consts, key)
+						}
+					}
+				}
+			})
+			sort.Strings(consts)
+			if len(consts) == 0 || len(consts) > 3 {
+				return
+			}
 		}
 		if n >= c20CallTags {
-			f.Imprecise["more boolean helper calls in "+fn.Name()+" than can be told apart"] = true
+			f.Imprecise["more flag-returning helper calls in "+fn.Name()+" than can be told apart"] = true
 			return
 		}
-		tags[c] = 1 << uint(c20TagBase+depth*c20TagsPerLvl+n)
+		tags[c] = c20CallTag{shift: uint(c20TagBase + depth*c20TagsPerLvl + 2*n), consts: consts, idx: idx}
 		n++
 	})
 	return tags
@@ -300,7 +507,7 @@ func (f *c20PathFlow) phiTagsOf(fn *ssa.Function, depth int) map[*ssa.Phi]c20Sta
 				f.Imprecise["more boolean flags merged in "+fn.Name()+" than can be told apart"] = true
 				continue
 			}
-			tags[phi] = 1 << uint(c20TagBase+depth*c20TagsPerLvl+c20SlotTag+1+n)
+			tags[phi] = 1 << uint(c20TagBase+depth*c20TagsPerLvl+c20PhiTag0+n)
 			n++
 		}
 	}
@@ -324,17 +531,40 @@ func (f *c20PathFlow) mapInstr(x *c20Ctx, in ssa.Instruction, st c20Set) c20Set 
 	})
 }
 
-func (f *c20PathFlow) call(x *c20Ctx, c ssa.CallInstruction, cal *ssa.Function, st c20Set, replay bool) c20Res {
+func (f *c20PathFlow) call(x *c20Ctx, c ssa.CallInstruction, t c20Target, st c20Set, replay bool) c20Res {
 	if f.Enter != nil {
 		st = st.mapped(func(s c20State) c20State { return f.Enter(x, c, s&c20ClientMask)&c20ClientMask | s&c20TagMask })
 	}
-	nx := &c20Ctx{Stack: append(append([]c20Frame{}, x.Stack...), c20Frame{fn: cal, call: c}), Replaying: x.Replaying || replay}
-	sub := f.runFrame(nx, cal, st)
+	args := t.args
+	if len(args) != len(t.fn.Params) {
+		args = nil
+	}
+	nx := &c20Ctx{Stack: append(append([]c20Frame{}, x.Stack...), c20Frame{fn: t.fn, call: c, args: args}), Replaying: x.Replaying || replay}
+	sub := f.runFrame(nx, t.fn, st)
 	if f.Leave != nil {
 		lv := func(s c20State) c20State { return f.Leave(x, c, s&c20ClientMask)&c20ClientMask | s&c20TagMask }
-		sub.all, sub.tr, sub.fa = sub.all.mapped(lv), sub.tr.mapped(lv), sub.fa.mapped(lv)
+		sub.all, sub.other = sub.all.mapped(lv), sub.other.mapped(lv)
+		for k, v := range sub.by {
+			sub.by[k] = v.mapped(lv)
+		}
 	}
 	return sub
+}
+
+// followable filters the targets of a call; ok=false if some target cannot be entered.
+func (f *c20PathFlow) followable(x *c20Ctx, ts []c20Target) ([]c20Target, bool) {
+	if len(ts) == 0 {
+		return nil, false
+	}
+	for _, t := range ts {
+		if !f.canFollow(x, t.fn) {
+			if t.fn != nil && f.K.In[t.fn] {
+				f.Unfollowed[t.fn.Name()] = true
+			}
+			return nil, false
+		}
+	}
+	return ts, true
 }
 
 // execBlock runs the instructions of b over st (Return excluded).
@@ -346,24 +576,79 @@ func (f *c20PathFlow) execBlock(x *c20Ctx, b *ssa.BasicBlock, st c20Set, fi *c20
 		}
 		switch i := in.(type) {
 		case *ssa.Call:
-			if cal := f.targetIn(x, i); f.canFollow(x, cal) {
-				st = f.mapInstr(x, in, st) // the call instruction itself (argument uses) is seen by the client too
-				if tag, ok := tags[i]; ok {
-					// a tag set by an earlier execution of this call (loop) is stale
-					st = st.mapped(func(s c20State) c20State { return s &^ tag })
-				}
-				sub := f.call(x, i, cal, st, false)
-				if tag, ok := tags[i]; ok && sub.boolIdx >= 0 {
-					st = sub.fa.clone()
-					for s := range sub.tr {
-						st[s|tag] = struct{}{}
+			if u := fi.unroll; u != nil && !i.Call.IsInvoke() && builtinName(i) == "" && staticCallee(i) == nil && u.isElem(f.K, x, i.Call.Value) {
+				// the current element of the table being unrolled: each state calls its own element
+				out := c20Set{}
+				okAll := true
+				for c, e := range u.elems {
+					part := c20Set{}
+					for s := range st {
+						if u.count(s) == c {
+							part[s] = struct{}{}
+						}
 					}
-				} else {
-					st = sub.all
+					if len(part) == 0 {
+						continue
+					}
+					fvs, ok := f.K.funcValues(e, 0)
+					if !ok || len(fvs) != 1 {
+						// not a package function (a method value of a library type, ...): the client sees
+						// the call with the element it invokes
+						x.Callee = e
+						out.addAll(f.mapInstr(x, in, part))
+						x.Callee = nil
+						continue
+					}
+					args := i.Call.Args
+					if fvs[0].recv != nil {
+						args = append([]ssa.Value{fvs[0].recv}, args...)
+					}
+					ts, ok := f.followable(x, []c20Target{{fn: fvs[0].fn, args: args}})
+					if !ok {
+						okAll = false
+						break
+					}
+					out.addAll(f.call(x, i, ts[0], f.mapInstr(x, in, part), false).all)
 				}
+				if okAll {
+					st = out
+					continue
+				}
+				f.Imprecise["an element of a table of functions called in "+x.Fn().Name()+" could not be resolved"] = true
 				continue
-			} else if cal != nil && f.K.In[cal] {
-				f.Unfollowed[cal.Name()] = true
+			}
+			if ts, ok := f.followable(x, f.targetsIn(x, i)); ok {
+				st = f.mapInstr(x, in, st) // the call instruction itself (argument uses) is seen by the client too
+				tag, tagged := tags[i]
+				if tagged {
+					// a class set by an earlier execution of this call (loop) is stale
+					st = st.mapped(func(s c20State) c20State { return tag.with(s, 0) })
+				}
+				if len(ts) > 1 {
+					f.Imprecise["a call in "+x.Fn().Name()+" runs one of several functions (table of function values); every one is assumed possible each time"] = true
+				}
+				out := c20Set{}
+				for _, t := range ts {
+					sub := f.call(x, i, t, st, false)
+					if tagged && sub.boolIdx >= 0 && len(ts) == 1 {
+						for key, set := range sub.by {
+							c := tag.classOf(key)
+							if c < 0 {
+								c = 0
+							}
+							for s := range set {
+								out[tag.with(s, c)] = struct{}{}
+							}
+						}
+						for s := range sub.other {
+							out[tag.with(s, 0)] = struct{}{}
+						}
+					} else {
+						out.addAll(sub.all)
+					}
+				}
+				st = out
+				continue
 			}
 			st = f.mapInstr(x, in, st)
 		case *ssa.RunDefers:
@@ -373,12 +658,16 @@ func (f *c20PathFlow) execBlock(x *c20Ctx, b *ssa.BasicBlock, st c20Set, fi *c20
 				if d.Block() != b && !reachableFrom(d.Block(), nil)[b] {
 					continue
 				}
-				if cal := f.targetIn(x, d); f.canFollow(x, cal) {
+				if ts, ok := f.followable(x, f.targetsIn(x, d)); ok {
 					old := x.Replaying
 					x.Replaying = true
 					st = f.mapInstr(x, d, st)
 					x.Replaying = old
-					st = f.call(x, d, cal, st, true).all
+					out := c20Set{}
+					for _, t := range ts {
+						out.addAll(f.call(x, d, t, st, true).all)
+					}
+					st = out
 					continue
 				}
 				old := x.Replaying
@@ -404,10 +693,49 @@ func (f *c20PathFlow) execBlock(x *c20Ctx, b *ssa.BasicBlock, st c20Set, fi *c20
 	return st
 }
 
+// flagTag: v is the flag result of a tagged call of this frame (the call
+// itself, or the Extract of its flag result).
+func (f *c20PathFlow) flagTag(fi *c20FrameInfo, v ssa.Value) (c20CallTag, bool) {
+	switch q := v.(type) {
+	case *ssa.Call:
+		t, ok := fi.tags[q]
+		return t, ok && q.Call.Signature().Results().Len() == 1
+	case *ssa.Extract:
+		if call, ok := q.Tuple.(*ssa.Call); ok {
+			if t, ok := fi.tags[call]; ok && t.idx == q.Index {
+				return t, true
+			}
+		}
+	case *ssa.ChangeType:
+		return f.flagTag(fi, q.X)
+	case *ssa.Convert:
+		return f.flagTag(fi, q.X)
+	}
+	return c20CallTag{}, false
+}
+
+// splitClass: the states in which the tagged result equals the constant key,
+// and those in which it does not.
+func (f *c20PathFlow) splitClass(x *c20Ctx, tag c20CallTag, key string, st c20Set) (c20Set, c20Set) {
+	want := tag.classOf(key)
+	tr, fa := c20Set{}, c20Set{}
+	for s := range st {
+		switch c := tag.class(s); {
+		case c == 0:
+			f.Imprecise["a helper result tested in "+x.Fn().Name()+" is not one of its constant results on some path"] = true
+			tr[s], fa[s] = struct{}{}, struct{}{}
+		case c == want:
+			tr[s] = struct{}{}
+		default:
+			fa[s] = struct{}{}
+		}
+	}
+	return tr, fa
+}
+
 // splitBool partitions st into the states in which v is true and those in
 // which it is false, adding the evidence of either outcome.
 func (f *c20PathFlow) splitBool(x *c20Ctx, v ssa.Value, st c20Set, fi *c20FrameInfo, from, toTrue, toFalse *ssa.BasicBlock) (c20Set, c20Set) {
-	tags := fi.tags
 	neg := false
 	for {
 		if u, ok := v.(*ssa.UnOp); ok && u.Op == token.NOT {
@@ -429,33 +757,31 @@ func (f *c20PathFlow) splitBool(x *c20Ctx, v ssa.Value, st c20Set, fi *c20FrameI
 			}
 			done = true
 		}
-	case *ssa.Call:
-		if tag, ok := tags[c]; ok {
-			tr, fa = c20Set{}, c20Set{}
-			for s := range st {
-				if s&tag != 0 {
-					tr[s] = struct{}{}
-				} else {
-					fa[s] = struct{}{}
-				}
-			}
+	case *ssa.Call, *ssa.Extract:
+		if tag, ok := f.flagTag(fi, v); ok {
+			tr, fa = f.splitClass(x, tag, "true", st)
 			done = true
-		} else if cal := staticCallee(c); cal != nil && f.K.In[cal] {
-			f.Imprecise["boolean result of "+cal.Name()+" could not be split"] = true
+		} else if call, ok := v.(*ssa.Call); ok {
+			if cal := staticCallee(call); cal != nil && f.K.In[cal] {
+				f.Imprecise["boolean result of "+cal.Name()+" could not be split"] = true
+			}
 		}
-	case *ssa.Extract:
-		if call, ok := c.Tuple.(*ssa.Call); ok {
-			if tag, ok := tags[call]; ok {
-				if cal := f.target(call); cal != nil && c20FirstBoolResult(cal) == c.Index {
-					tr, fa = c20Set{}, c20Set{}
-					for s := range st {
-						if s&tag != 0 {
-							tr[s] = struct{}{}
-						} else {
-							fa[s] = struct{}{}
+	case *ssa.BinOp:
+		// flag/enum result of a followed helper compared with a constant
+		if c.Op == token.EQL || c.Op == token.NEQ {
+			fv, kv := c.X, c.Y
+			if _, isC := fv.(*ssa.Const); isC {
+				fv, kv = kv, fv
+			}
+			if k, isC := kv.(*ssa.Const); isC {
+				if tag, ok := f.flagTag(fi, fv); ok {
+					if key, ok := c20ConstKey(k); ok {
+						tr, fa = f.splitClass(x, tag, key, st)
+						if c.Op == token.NEQ {
+							tr, fa = fa, tr
 						}
+						done = true
 					}
-					done = true
 				}
 			}
 		}
@@ -515,13 +841,14 @@ func (f *c20PathFlow) splitBool(x *c20Ctx, v ssa.Value, st c20Set, fi *c20FrameI
 
 func (f *c20PathFlow) runFrame(x *c20Ctx, fn *ssa.Function, entry c20Set) c20Res {
 	depth := len(x.Stack) - 1
-	res := c20Res{all: c20Set{}, tr: c20Set{}, fa: c20Set{}, boolIdx: c20FirstBoolResult(fn)}
+	res := c20Res{all: c20Set{}, by: map[string]c20Set{}, other: c20Set{}, boolIdx: c20FirstBoolResult(fn)}
 	n := len(fn.Blocks)
 	if n == 0 || len(entry) == 0 {
 		return res
 	}
-	fi := &c20FrameInfo{tags: f.tagsOf(fn, depth), slotTag: 1 << uint(c20TagBase+depth*c20TagsPerLvl+c20SlotTag)}
+	fi := &c20FrameInfo{tags: f.tagsOf(x, fn, depth), slotTag: 1 << uint(c20TagBase+depth*c20TagsPerLvl+c20SlotTag)}
 	fi.phiTags = f.phiTagsOf(fn, depth)
+	fi.unroll = f.findUnroll(x, fn, depth)
 	allInstrs(fn, func(in ssa.Instruction) {
 		if d, ok := in.(*ssa.Defer); ok {
 			fi.defers = append(fi.defers, d)
@@ -562,6 +889,19 @@ func (f *c20PathFlow) runFrame(x *c20Ctx, fn *ssa.Function, entry c20Set) c20Res
 				outs = append(outs, out{b.Succs[0], st})
 			} else {
 				tr, fa := f.splitBool(x, ifi.Cond, st, fi, b, b.Succs[0], b.Succs[1])
+				if u := fi.unroll; u != nil && b == u.header {
+					// exactly len(S) iterations
+					keep := func(set c20Set, body bool) c20Set {
+						o := c20Set{}
+						for s := range set {
+							if (u.count(s) < len(u.elems)) == body {
+								o[s] = struct{}{}
+							}
+						}
+						return o
+					}
+					tr, fa = keep(tr, true), keep(fa, false)
+				}
 				outs = append(outs, out{b.Succs[0], tr}, out{b.Succs[1], fa})
 			}
 		} else {
@@ -573,6 +913,15 @@ func (f *c20PathFlow) runFrame(x *c20Ctx, fn *ssa.Function, entry c20Set) c20Res
 			o := &outs[oi]
 			if len(o.st) == 0 {
 				continue
+			}
+			if u := fi.unroll; u != nil && o.to == u.header {
+				back := u.loop[b]
+				o.st = o.st.mapped(func(s c20State) c20State {
+					if back {
+						return u.withCount(s, u.count(s)+1)
+					}
+					return u.withCount(s, 0)
+				})
 			}
 			// boolean phis of the successor: remember which value this edge selects
 			for _, pin := range o.to.Instrs {
@@ -645,7 +994,10 @@ func (f *c20PathFlow) runFrame(x *c20Ctx, fn *ssa.Function, entry c20Set) c20Res
 	}
 	m := ^c20FrameTagMask(depth)
 	clr := func(s c20State) c20State { return s & m }
-	res.all, res.tr, res.fa = res.all.mapped(clr), res.tr.mapped(clr), res.fa.mapped(clr)
+	res.all, res.other = res.all.mapped(clr), res.other.mapped(clr)
+	for k, v := range res.by {
+		res.by[k] = v.mapped(clr)
+	}
 	return res
 }
 
@@ -654,9 +1006,28 @@ func (f *c20PathFlow) classify(x *c20Ctx, rv ssa.Value, st c20Set, fi *c20FrameI
 	if rv == nil {
 		return
 	}
-	tr, fa := f.splitBool(x, rv, st, fi, nil, nil, nil)
-	res.tr.addAll(tr)
-	res.fa.addAll(fa)
+	add := func(key string, set c20Set) {
+		if len(set) == 0 {
+			return
+		}
+		if res.by[key] == nil {
+			res.by[key] = c20Set{}
+		}
+		res.by[key].addAll(set)
+	}
+	if k, ok := rv.(*ssa.Const); ok {
+		if key, ok := c20ConstKey(k); ok {
+			add(key, st)
+			return
+		}
+	}
+	if c20IsBool(rv.Type()) {
+		tr, fa := f.splitBool(x, rv, st, fi, nil, nil, nil)
+		add("true", tr)
+		add("false", fa)
+		return
+	}
+	res.other.addAll(st)
 }
 
 // c20SelectEdge decodes a branch on the index of a select: which case fired
